@@ -36,7 +36,7 @@ var nastyNums = []float64{0, 1, 2, 3, -1, 0.5, 1.5, 0.1, 1e21, 1e-7, 90071992547
 var smallStrs = []string{"a", "b", "c", ""}
 var nastyStrs = []string{"a", "b", "c", "", "AAAAAAAA", "100%d done", "50%", "a%%20b", "%s%v%!", "$1 \\1 ${x}", "`x`", "'q'", "true", "1", "null", "a/b", "m~n", "-", "0", "01", "<x>&", " ", "é", "😀", "line\nbreak", "tab\t", "q\"uote", "back\\slash", "\x01", "{}", "[]", " "}
 var smallKeys = []string{"a", "b", "c", "d"}
-var nastyKeys = []string{"a", "b", "c", "d", "", "/", "~", "~0", "~1", "~01", "a/b", "m~n", "-", "0", "1", "01", "-1", "<<", "é", "id", "k", "a ", " ", "\t", " a", "\u00a0", "k\n"}
+var nastyKeys = []string{"a", "b", "c", "d", "", "/", "~", "~0", "~1", "~01", "a/b", "m~n", "-", "0", "1", "01", "-1", "<<", "é", "id", "k", "a ", " ", "\t", " a", "\u00a0", "k\n", "a\u0001b", "\u007f", "b\a\v", "ID", "Id", "iD", "A"}
 
 func DefaultCfg() GenCfg {
 	return GenCfg{MaxDepth: 3, MaxLen: 5, MaxKeys: 3, Nums: smallNums, Strs: smallStrs, Keys: smallKeys, AllowNull: true, AllowBool: true, ScalarBias: 5}
@@ -225,7 +225,35 @@ func (c GenCfg) fixKeyed(v *Val) *Val {
 	return v
 }
 
+// emptyRetype: "" <-> [] <-> {} (values whose hash codes are not domain-separated under the set readings) — at
+// the same location, so that a differ which trusts hash equality instead of comparing kinds misses the change
+func emptyRetype(r *Rng, v *Val) (*Val, bool) {
+	isEmpty := (v.K == KStr && v.S == "") || (v.K == KArr && len(v.A) == 0) || (v.K == KObj && len(v.O) == 0)
+	if !isEmpty {
+		return v, false
+	}
+	for {
+		var n *Val
+		switch r.Intn(3) {
+		case 0:
+			n = VStr("")
+		case 1:
+			n = VArr()
+		default:
+			n = VObj()
+		}
+		if n.K != v.K {
+			return n, true
+		}
+	}
+}
+
 func (c GenCfg) mutateOnce(r *Rng, v *Val, depth int) *Val {
+	if depth > 0 && r.Chance(1, 3) {
+		if n, ok := emptyRetype(r, v); ok {
+			return n
+		}
+	}
 	// descend with some probability
 	switch v.K {
 	case KArr:
